@@ -1,4 +1,4 @@
-from .checks import deps, pipeline, version, selfhost, container, compilecheck, imports, pattern, grammar, merge, determinism, totality
+from .checks import deps, pipeline, version, selfhost, container, compilecheck, imports, pattern, grammar, merge, determinism, totality, conc
 
 CHECKS = {
     "C01": lambda tier: compilecheck.run("C01", tier),
@@ -20,4 +20,5 @@ CHECKS = {
     "C16": lambda tier: deps.run_c16(tier),
     "C18": lambda tier: version.run_c18(tier),
     "C19": lambda tier: selfhost.run_c19(tier),
+    "C20": lambda tier: conc.run_c20(tier),
 }
